@@ -19,19 +19,21 @@ Fixpoint tbl_str (t : list (pystr * pystr)) (s : pystr) : pystr :=
 
 Local Open Scope string_scope.
 
-Definition sx_reports (verbose2 : bool) (l : list (pystr * value)) : sx :=
-  if verbose2 then SL (map (fun kv => SL [sx_str (fst kv); sx_value (snd kv)]) l)
+Definition sx_reports {V} (f : V -> sx) (verbose2 : bool) (l : list (pystr * V)) : sx :=
+  if verbose2 then SL (map (fun kv => SL [sx_str (fst kv); f (snd kv)]) l)
   else SL (map (fun kv => sx_str (fst kv)) l).
+Definition sx_pval (o : option value) : sx :=
+  match o with Some v => sx_value v | None => SA "method" end.
 
 (* one correspondence case *)
 Definition run_search (verbose2 : bool) (c : config)
            (re_tbl excl_tbl : list (pystr * bool)) (b_tbl : list (pystr * pystr)) (re_text : pystr)
-           (item : atom) (obj : value) : sx :=
+           (str_attrs bytes_attrs : list pystr) (item : atom) (obj : value) : sx :=
   let brepr := tbl_str b_tbl in
-  match deep_search brepr (tbl_bool re_tbl) (tbl_bool excl_tbl) re_text c item obj with
+  match deep_search brepr (tbl_bool re_tbl) (tbl_bool excl_tbl) re_text str_attrs bytes_attrs c item obj with
   | RRaise => SA "raise"
-  | ROk evs => SL [SA "ok"; sx_reports verbose2 (matched_paths brepr evs);
-                   sx_reports verbose2 (matched_values brepr evs)]
+  | ROk evs => SL [SA "ok"; sx_reports sx_pval verbose2 (matched_paths brepr evs);
+                   sx_reports sx_value verbose2 (matched_values brepr evs)]
   end.
 
 Definition sx_ty (t : ty) : sx :=
